@@ -53,10 +53,16 @@ def run_impl(chunks, kinds):
     per_call = []
     status = "ok"
     for c, k in zip(chunks, kinds):
-        data = c if k == 0 else bytearray(c) if k == 1 else memoryview(c)
+        # mutable buffers belong to the caller: they are overwritten as soon as data_received returns
+        backing = bytearray(c) if k in (1, 2) else None
+        data = c if k == 0 else backing if k == 1 else memoryview(backing)
         n0, e0 = len(conn.calls), len(conn.errors)
         try:
             h.data_received(data)
+            if backing is not None:
+                if k == 2:
+                    data.release()
+                backing[:] = b"\xee" * len(backing)
         except Exception as ex:  # raw exception escaping data_received
             per_call.append([f"D:{t:x}:{hexs(p)}" for _, t, p in conn.calls[n0:]] + [f"RAISE:{type(ex).__name__}"])
             status = "error"
